@@ -156,6 +156,62 @@ fn d<'a, T: Deserialize<'a>>(b: &'a [u8]) -> bool {
     postcard::take_from_bytes::<T>(b).is_ok()
 }
 
+/// the same decode through a byte reader with a scratch buffer of the given size
+fn dr<T: serde::de::DeserializeOwned>(b: &[u8], scratch: &mut [u8]) -> bool {
+    postcard::from_io::<T, _>((b, scratch)).is_ok()
+}
+fn dre<T: serde::de::DeserializeOwned>(b: &[u8], scratch: &mut [u8]) -> bool {
+    postcard::from_eio::<T, _>((b, scratch)).is_ok()
+}
+
+struct RealReader {
+    name: &'static str,
+    elem: usize,
+    run: fn(&[u8], &mut [u8]) -> bool,
+}
+
+fn real_readers() -> Vec<RealReader> {
+    vec![
+        RealReader { name: "io:Vec<u8>", elem: 1, run: |b, s| dr::<Vec<u8>>(b, s) },
+        RealReader { name: "io:Vec<u64>", elem: 8, run: |b, s| dr::<Vec<u64>>(b, s) },
+        RealReader { name: "io:Vec<String>", elem: 24, run: |b, s| dr::<Vec<String>>(b, s) },
+        RealReader { name: "io:String", elem: 1, run: |b, s| dr::<String>(b, s) },
+        RealReader { name: "io:Vec<(u8,u32,f64)>", elem: 16, run: |b, s| dr::<Vec<(u8, u32, f64)>>(b, s) },
+        RealReader { name: "io:VecDeque<u32>", elem: 4, run: |b, s| dr::<VecDeque<u32>>(b, s) },
+        RealReader { name: "io:Box<[u8]>", elem: 1, run: |b, s| dr::<Box<[u8]>>(b, s) },
+        RealReader { name: "eio:Vec<u8>", elem: 1, run: |b, s| dre::<Vec<u8>>(b, s) },
+        RealReader { name: "eio:Vec<u64>", elem: 8, run: |b, s| dre::<Vec<u64>>(b, s) },
+        RealReader { name: "eio:Vec<Vec<u8>>", elem: 24, run: |b, s| dre::<Vec<Vec<u8>>>(b, s) },
+        RealReader { name: "eio:String", elem: 1, run: |b, s| dre::<String>(b, s) },
+    ]
+}
+
+/// Reader-based decoding: what is requested from the allocator is bounded by a multiple of the
+/// bytes the decoder could possibly have seen or been given room for (input + scratch).
+pub fn check_alloc_reader(ri: usize, input: &[u8], scratch_len: usize, l: &mut Local) -> CaseResult {
+    let rs = real_readers();
+    let r = &rs[ri % rs.len()];
+    let cj = || json!({"real_reader": r.name, "input": hex(input), "scratch": scratch_len});
+    let mut scratch = vec![0u8; scratch_len];
+    l.eval();
+    let (res, m) = measure(|| no_panic(|| (r.run)(input, &mut scratch)));
+    let accepted = res.map_err(|p| fail("alloc", format!("decoding {} panicked: {}", r.name, p), cj()))?;
+    let bound = ALLOC_FACTOR * r.elem.max(1) * (input.len() + scratch_len + 8);
+    if m.bytes > bound {
+        return Err(fail(
+            "alloc",
+            format!(
+                "decoding {} input bytes as {} through a reader with {} scratch bytes requested {} bytes from the allocator (largest single request {}), bound {} = {}*{}*(len+scratch+8)",
+                input.len(), r.name, scratch_len, m.bytes, m.largest, bound, ALLOC_FACTOR, r.elem.max(1)
+            ),
+            cj(),
+        ));
+    }
+    l.class(if accepted { "alloc-reader-accepted" } else { "alloc-reader-rejected" });
+    l.nontrivial(&(r.name, input, scratch_len));
+    Ok(())
+}
+
 fn reals() -> Vec<Real> {
     vec![
         Real { name: "Vec<u8>", elem: 1, run: |b| d::<Vec<u8>>(b) },
@@ -295,6 +351,10 @@ pub fn replay(case: &Json, l: &mut Local) -> CaseResult {
         let ri = reals().iter().position(|r| r.name == name).unwrap_or(0);
         return check_alloc(ri, &input_of(case), l);
     }
+    if let Some(name) = case.get("real_reader").and_then(|r| r.as_str()) {
+        let ri = real_readers().iter().position(|r| r.name == name).unwrap_or(0);
+        return check_alloc_reader(ri, &input_of(case), case["scratch"].as_u64().unwrap_or(0) as usize, l);
+    }
     if let Some(w) = case.get("wont").and_then(|w| w.as_u64()) {
         return check_wont(&input_of(case), w as usize, l);
     }
@@ -313,15 +373,15 @@ pub fn run(ctx: &Ctx) {
         "cases: random bytes, valid encodings with single-byte corruptions / prefixes / length varints replaced by remaining+1, \
          2^k, 2^k-1, usize::MAX/2, usize::MAX, x generated shapes; every input decoded in a buffer flush against a PROT_NONE page \
          at either end, and through from_io with a guard-paged scratch buffer; 20 real collection types under a counting allocator \
-         with adversarial claimed lengths; 7 types that ask for deserialize_any / identifier / ignored_any. oracle: Ok or Err (no \
+         with adversarial claimed lengths, from slices and (11 of them) through from_io / from_eio with small scratch buffers; 7 types that ask for deserialize_any / identifier / ignored_any. oracle: Ok or Err (no \
          panic, no fault), agreement with the reference decoder, borrowed items exactly at their encoded input offsets (inside the \
-         scratch for readers), bytes requested <= 64*max(size_of Elem,1)*(len+8), WontImplement. non-trivial = rejected input, \
+         scratch for readers), bytes requested <= 64*max(size_of Elem,1)*(len+8) (readers: len+scratch+8), WontImplement. non-trivial = rejected input, \
          accepted input with a borrowed field, or adversarial length; distinct = hash(type, input)",
     );
     ctx.assume("allocation bound evaluated for strings, byte buffers and sequences of non-zero-width elements decoded from slices (maps and zero-width elements are outside the statement)");
     ctx.assume("a stray access outside input or scratch faults on a guard page and is reported by the signal handler");
     let scfg = ShapeCfg { allow_zero_width_elems: true, ..ShapeCfg::default() };
-    let n = ctx.tier.pick(60_000, 3_000_000);
+    let n = ctx.tier.pick(300_000, 5_000_000);
     ctx.par_proptest(
         "random-bytes",
         n,
@@ -333,7 +393,7 @@ pub fn run(ctx: &Ctx) {
         },
         |(s, b), l| check_total(s, b, false, l),
     );
-    let n = ctx.tier.pick(6_000, 300_000);
+    let n = ctx.tier.pick(30_000, 400_000);
     ctx.par_proptest(
         "adversarial-lengths",
         n,
@@ -369,7 +429,7 @@ pub fn run(ctx: &Ctx) {
 
     // (iii) allocation bound on real collections
     let nr = reals().len();
-    let n = ctx.tier.pick(120_000, 5_000_000);
+    let n = ctx.tier.pick(600_000, 8_000_000);
     ctx.par_proptest(
         "alloc-claimed-lengths",
         n,
@@ -395,6 +455,28 @@ pub fn run(ctx: &Ctx) {
             check_alloc(*ri, &with_claim(payload.len() as u64 + 1, payload), l)
         },
     );
+    let nrr = real_readers().len();
+    ctx.par_proptest(
+        "alloc-claimed-lengths-readers",
+        n / 2,
+        || {
+            (
+                0..nrr,
+                prop_oneof![
+                    3 => (0u32..64).prop_map(|k| 1u64.checked_shl(k).unwrap_or(u64::MAX)),
+                    2 => 0u64..300,
+                    1 => Just(u64::MAX),
+                ],
+                proptest::collection::vec(prop_oneof![3 => 0u8..3, 3 => 0x20u8..0x7F, 1 => any::<u8>()], 0..128),
+                prop_oneof![Just(0usize), Just(16), Just(64), 0usize..300],
+                any::<bool>(),
+            )
+        },
+        |(ri, claim, payload, scratch, exact), l| {
+            let c = if *exact { payload.len() as u64 } else { *claim };
+            check_alloc_reader(*ri, &with_claim(c, payload), *scratch, l)
+        },
+    );
     ctx.par_proptest(
         "alloc-random-bytes",
         n / 2,
@@ -414,7 +496,7 @@ pub fn run(ctx: &Ctx) {
     );
 
     // (iv)
-    let n = ctx.tier.pick(40_000, 1_000_000);
+    let n = ctx.tier.pick(200_000, 2_000_000);
     ctx.par_proptest(
         "wont-implement",
         n,
